@@ -131,7 +131,7 @@ fn authentic_run(run: usize, rng: &mut Rng, w: &mut NdjsonWriter, acc: &mut Acc)
     loop {
         pieces.clear();
         for _ in 0..npieces {
-            pieces.push(c11::Piece { n: if rng.chance(1, 2) { rng.range(2, 5) } else { rng.range(2, 24) } as usize, cd: rng.chance(1, 2) });
+            pieces.push(c11::Piece { n: if rng.chance(1, 2) { rng.range(2, 5) } else { rng.range(2, 24) } as usize, cd: rng.chance(1, 2), peer: false });
         }
         if pieces.iter().map(|p| p.n).sum::<usize>() <= 64 {
             break;
